@@ -1119,7 +1119,8 @@ fn fam_config(r: &mut Rng) -> Result<(), String> {
         1 => {
             // only monitors + batch period
             let dup = r.next() % 2 == 0;
-            let mons = if dup { vec![b32(s.pp, 40), b32(s.pp, 40)] } else { vec![b32(s.pp, 40), b32(s.pp, 41)] };
+            // a repeated entry need not be adjacent
+            let mons = if dup { if r.next() % 2 == 0 { vec![b32(s.pp, 40), b32(s.pp, 40)] } else { vec![b32(s.pp, 40), b32(s.pp, 41), b32(s.pp, 40)] } } else { vec![b32(s.pp, 40), b32(s.pp, 41)] };
             let res = execute(deps.as_mut(), mock_env(), mock_info(ADMIN, &[]), ExecuteMsg::UpdateConfig { native_chain_config: None, protocol_chain_config: None, protocol_fee_config: None, monitors: Some(mons.clone()), batch_period: Some(777) });
             let c = CONFIG.load(&deps.storage).unwrap();
             match res {
@@ -1140,7 +1141,7 @@ fn fam_config(r: &mut Rng) -> Result<(), String> {
             let nv = b32(&format!("{}valoper", s.np), 50);
             let n = UnsafeNativeChainConfig {
                 token_denom: "utia".into(), account_address_prefix: s.np.into(), validator_address_prefix: format!("{}valoper", s.np),
-                validators: if bad == 1 { vec![nv.clone(), nv.clone()] } else { vec![nv.clone()] },
+                validators: if bad == 1 { if r.next() % 2 == 0 { vec![nv.clone(), nv.clone()] } else { vec![nv.clone(), b32(&format!("{}valoper", s.np), 53), nv.clone()] } } else { vec![nv.clone()] },
                 unbonding_period: 100, staker_address: if bad == 2 { b32("cosmos", 51) } else { b32(s.np, 51) }, reward_collector_address: b32(s.np, 52),
             };
             let res = execute(deps.as_mut(), mock_env(), mock_info(ADMIN, &[]), ExecuteMsg::UpdateConfig { native_chain_config: Some(n), protocol_chain_config: None, protocol_fee_config: None, monitors: None, batch_period: None });
